@@ -225,11 +225,23 @@ struct L {
     panics: bool,
 }
 
+thread_local! {
+    /// what a panicking listener panics with: 0 = a non-string payload, 1 = a short &str,
+    /// 2.. = a String of about 400 bytes made of two-byte characters after (style - 2) ASCII
+    /// bytes (so that every byte offset parity occurs), 6 = a long ASCII String
+    static PANIC_STYLE: std::cell::Cell<u8> = const { std::cell::Cell::new(0) };
+}
+
 impl L {
     fn hit(&self, kind: i64) {
         self.log.note("listener", self.j as i64, kind);
         if self.panics {
-            std::panic::panic_any(ScriptedPanic);
+            match PANIC_STYLE.with(|c| c.get()) {
+                0 => std::panic::panic_any(ScriptedPanic),
+                1 => std::panic::panic_any("listener failed"),
+                6 => std::panic::panic_any("listener failed: ".to_string() + &"x".repeat(600)),
+                k => std::panic::panic_any("x".repeat((k - 2) as usize) + &"\u{e9}".repeat(200)),
+            }
         }
     }
 }
@@ -635,6 +647,9 @@ pub enum C20Case {
         panics: Vec<bool>,
         /// per request: (gap ms, outcome code 0 ok / 1..=4 error, latency ms)
         requests: Vec<(u8, u8, u8)>,
+        /// payload of the listeners' panics (see PANIC_STYLE)
+        #[serde(default)]
+        panic_style: u8,
     },
 }
 
@@ -680,11 +695,13 @@ fn case_strategy(_tier: Tier) -> BoxedStrategy<C20Case> {
         0u8..LISTENER_LAYERS.len() as u8,
         prop::collection::vec(any::<bool>(), 1..=4),
         prop::collection::vec((0u8..=4, 0u8..=4, prop_oneof![2 => Just(0u8), 1 => 0u8..=30]), 1..=6),
+        prop_oneof![3 => Just(0u8), 4 => 1u8..=6],
     )
-        .prop_map(|(layer, panics, requests)| C20Case::Listeners {
+        .prop_map(|(layer, panics, requests, panic_style)| C20Case::Listeners {
             layer,
             panics,
             requests,
+            panic_style,
         });
     prop_oneof![3 => transparency, 4 => readiness, 3 => listeners].boxed()
 }
@@ -1266,7 +1283,12 @@ pub fn run_case(case: &C20Case) -> Report {
             layer,
             panics,
             requests,
+            panic_style,
         } => {
+            PANIC_STYLE.with(|c| c.set(*panic_style));
+            if *panic_style > 0 {
+                r.class("listener_panics_with_a_string_message");
+            }
             let l = LISTENER_LAYERS[*layer as usize % LISTENER_LAYERS.len()];
             let none = vec![false; panics.len()];
             let (a, va) = sim::run_case(listener_run(l, None, requests));
